@@ -6,6 +6,10 @@ package http2
 
 import "fmt"
 
+// c14Trl is a value of the trailer dimensions: N as c14Case.ReqTrl/ResTrl,
+// Pad as ReqTrlPad/ResTrlPad.
+type c14Trl struct{ N, Pad int }
+
 type c14Dim struct {
 	name string
 	n    int
@@ -38,6 +42,15 @@ func c14Dims(wide bool) []c14Dim {
 	}
 	tbl := pick([]int{4096, 64}, []int{4096, 64, 1, 65536})
 	frames := pick([]int{16384, 1<<24 - 1}, []int{16384, 1<<24 - 1, 16385, 65536})
+	// trailers: none, one field, 20 fields, (response) via http.TrailerPrefix,
+	// and - like the header sets - a trailer block larger than one frame, which
+	// travels as HEADERS(END_STREAM) + CONTINUATION
+	reqTrl := []c14Trl{{0, 0}, {1, 0}, {20, 0}, {1, 17000}}
+	resTrl := []c14Trl{{0, 0}, {1, 0}, {20, 0}, {-1, 0}, {1, 17000}}
+	if wide {
+		reqTrl = append(reqTrl, c14Trl{20, 33000})
+		resTrl = append(resTrl, c14Trl{-1, 17000}, c14Trl{20, 33000})
+	}
 	return []c14Dim{
 		c14DimOf("s_frame", frames, func(x *c14Case, v int) { x.SFrame = uint32(v) }),
 		c14DimOf("s_win", []int{1 << 20, 100, 1}, func(x *c14Case, v int) { x.SWin = int32(v) }),
@@ -55,7 +68,7 @@ func c14Dims(wide bool) []c14Dim {
 		c14DimOf("req_body", bodies, func(x *c14Case, v int) { x.ReqBody = v }),
 		c14DimOf("req_decl", []bool{true, false}, func(x *c14Case, v bool) { x.ReqDecl = v }),
 		c14DimOf("req_chunk", pick([]int{0, 1000, 16384}, []int{0, 1000, 16384, 1}), func(x *c14Case, v int) { x.ReqChunk = v }),
-		c14DimOf("req_trl", []int{0, 1, 20}, func(x *c14Case, v int) { x.ReqTrl = v }),
+		c14DimOf("req_trl", reqTrl, func(x *c14Case, v c14Trl) { x.ReqTrl, x.ReqTrlPad = v.N, v.Pad }),
 		c14DimOf("status", pick([]int{200, 404, 204, 304}, []int{200, 404, 204, 304, 201, 500}), func(x *c14Case, v int) { x.Status = v }),
 		c14DimOf("info", []bool{false, true}, func(x *c14Case, v bool) { x.Info = v }),
 		c14DimOf("res_hdr", hdrs, func(x *c14Case, v int) { x.ResHdr = v }),
@@ -63,7 +76,7 @@ func c14Dims(wide bool) []c14Dim {
 		c14DimOf("res_decl", []bool{false, true}, func(x *c14Case, v bool) { x.ResDecl = v }),
 		c14DimOf("res_chunk", pick([]int{0, 1000, 16384}, []int{0, 1000, 16384, 1}), func(x *c14Case, v int) { x.ResChunk = v }),
 		c14DimOf("res_flush", []bool{false, true}, func(x *c14Case, v bool) { x.ResFlush = v }),
-		c14DimOf("res_trl", []int{0, 1, 20, -1}, func(x *c14Case, v int) { x.ResTrl = v }),
+		c14DimOf("res_trl", resTrl, func(x *c14Case, v c14Trl) { x.ResTrl, x.ResTrlPad = v.N, v.Pad }),
 		c14DimOf("order", []int{0, 1}, func(x *c14Case, v int) { x.Order = v }),
 		c14DimOf("repeat", pick([]int{1, 2}, []int{1, 2, 3}), func(x *c14Case, v int) { x.Repeat = v }),
 	}
